@@ -258,8 +258,8 @@ PROPS = {
         "trusted_base": COMMON_TB + ["Expand/Expand.v: hand model of expander.go / schema_loader.go / resolver.go on JSON trees (base-path threading, parent stack, memo of circular refs, resolver roots, deref chains, rebasing, SkipSchemas/ContinueOnError/AbsoluteCircularRef, cache and loader log); abstractions: sub-schemas visited in JSON member order, `#/` refs into the live root read the original root (outputs on cyclic graphs compared through unfoldings)",
                                      "correspondence scope: every generated graph except those with schema ids and prefix-sibling documents (the areas of the open findings F9, F10, F10b), which are judged by the oracle only; multi-hop parameter/response/path-item chains and imported circular schemas are compared since the repairs of F7 and F8",
                                      "Codec/Codec.v (typed decoding of every resolved target) and Base/Url.v (normalizeURI, rebase)"],
-        "level_text": 'Coq theorems (Props/C03.v over Expand/ExpandCycle.v), unbounded: GRAPH LEVEL — for every store, state, stack, fuel and AbsoluteCircularRef setting (strict, full mode), every `$ref` a successful schema expansion leaves behind, at any depth, is the rendering of a canonical reference that lies on a cycle of the input reference graph (invariants: every reference on the parent stack has a holder whose target reaches the current position; the memo only holds references on cycles); an acyclic graph therefore ends `$ref`-free; acyclicity is decided by a rank every edge decreases; graph hypotheses decided by the verified checker and discharged by computation on a cyclic and an acyclic two-document graph. PER REFERENCE — kept exactly when on the stack or in the memo; the memo only receives stack members; rendering of a kept reference; a non-circular reference is always followed.',
-        "level_note": 'Partial: the graph-level theorems cover the schema walk (definitions and every schema below parameters/responses) under the well-formedness hypotheses of C02 (no ids, no prefix-sibling documents, strict mode); "resolves from the root location" for the rendered text is the per-graph URL check of C02 (G_render), not proved for all URLs; parameter/response/path-item chains and determinism of reruns rest on the oracle.',
+        "level_text": 'Coq theorems (Props/C03.v over Expand/ExpandCycle.v), unbounded: GRAPH LEVEL — for every store, state, stack, fuel and AbsoluteCircularRef setting (strict, full mode), every `$ref` a successful schema expansion leaves behind, at any depth, is the rendering of a canonical reference that lies on a cycle of the input reference graph (invariants: every reference on the parent stack has a holder whose target reaches the current position; the memo only holds references on cycles); an acyclic graph therefore ends `$ref`-free; acyclicity is decided by a rank every edge decreases; graph hypotheses decided by the verified checker and discharged by computation on a cyclic and an acyclic two-document graph. SPECIFICATION LEVEL (Expand/ExpandSpecSim.v): whatever ExpandSpec (expand_spec, the function the differential run executes) returns on a checked graph, every `$ref` left at a schema position of a definition, a shared parameter or response, a path item or an operation is the rendering of a reference on a cycle of the schema graph, and parameters, responses and path items come out as the ends of their chains, without `$ref`; when the schema graph is acyclic (rank_check, canon_check) every schema of the output is ref-free — discharged on an acyclic two-document specification (C03_acyclic_spec_example). PER REFERENCE — kept exactly when on the stack or in the memo; the memo only receives stack members; rendering of a kept reference; a non-circular reference is always followed.',
+        "level_note": 'Partial: the theorems cover ExpandSpec in strict, full mode under the well-formedness hypotheses of C02 (no ids, no prefix-sibling documents, no circular chains of parameters/responses/path items); "resolves from the root location" for the rendered text is the per-graph URL check of C02 (G_render), not proved for all URLs; determinism of reruns (the implementation iterates Go maps; the model is a function) rests on the oracle.',
         "technique": "Coq proof about a hand-written executable model of the expander + differential run (exact on acyclic graphs, unfoldings on cyclic ones) + property oracle on the implementation",
         "assumptions": ["loader is a function of the URL during one call", "documents are in normal form (reference objects carry only $ref)"],
     },
